@@ -57,4 +57,11 @@ def main(argv):
 
 
 if __name__ == "__main__":
-    sys.exit(main(sys.argv[1:]))
+    try:
+        rc = main(sys.argv[1:])
+    except BaseException as e:  # a broken checker must never look like a violation (exit 1)
+        if isinstance(e, SystemExit):
+            raise
+        print(f"ANALYSIS-ERROR checker failure: {type(e).__name__}: {e}")
+        rc = 2
+    sys.exit(rc)
